@@ -132,7 +132,8 @@ P["C02"] = dict(
     claimed=True,
     technique="static analysis: MIR value-graph dataflow over every per-tuple loop (loop-carried state, memo idiom, "
               "count additivity)",
-    decides=["R-NO-PEEK: operator code reads no tuple at a constant index",
+    decides=["R-COUNT-OR-NAN/never-reset: a count that one path of a per-tuple loop advances is not set to a constant on another",
+             "R-NO-PEEK: operator code reads no tuple at a constant index",
              "R-ADAPTER-FIXED: no &mut method of the (T, f64) / (T, f64, f64) adapters assigns to the adapter's fixed height / epoch",
              "R-LOOP-CARRIED (memo soundness): a value cached between tuples under a key is computed from the tuple through that key alone",
              
@@ -251,7 +252,8 @@ P["C04"] = dict(
     claimed=True,
     technique="static analysis: call-graph cycle analysis with explicit fn-pointer edges, dominance of the depth "
               "guard, provenance of re-entering calls, ranking functions for every loop of the resolution code",
-    decides=["R-PIPELINE-FAIL-FAST: from the failure side of Op::op in pipeline::new no path leads back into the loop over the steps",
+    decides=["R-CHASE-CALLS/error-propagated: the Err of every chase(..) in ParsedParameters::new reaches a `?`",
+             "R-PIPELINE-FAIL-FAST: from the failure side of Op::op in pipeline::new no path leads back into the loop over the steps",
              "R-DEFAULT-LATEST: in chase a default met later in the chase (given further out) replaces the earlier one - no write of the default is guarded by the default so far or by the look-up flag",
              "R-FORWARD-SELF/known-only: a self-forwarded argument is dropped only when the caller has a value for it",
              "R-REC-GUARD (limit-room): the nesting limit is at least 50 macro expansions at the level cost of one expansion",
@@ -285,7 +287,8 @@ P["C09"] = dict(
     claimed=True,
     technique="static analysis: key-availability dataflow between constructors and parameter-table readers, "
               "validation-before-unwrap, ranking functions for all loops, recursion guard, ellipsoid table grammar",
-    decides=["R-CHASE-NEEDLE/nonempty: the list the next needle is popped from is known to be non-empty",
+    decides=["R-ARRAY-INDEX-GUARD: computed positions in fixed arrays of the text parsing code are kept below the length by a dominating test or a bounded range",
+             "R-CHASE-NEEDLE/nonempty: the list the next needle is popped from is known to be non-empty",
              "R-ELLPS-VALIDATED/writers: outside ParsedParameters::new only validated names (or literals) are stored under ellps* keys of the text map",
              "R-GRID-SIZE-CHECK: no BaseGrid holding its own values is shorter than the interpolation indexes it",
              "R-STR-SLICE also covers str::split_at and the byte-offset methods of String",
@@ -350,7 +353,8 @@ P["C15"] = dict(
     technique="static analysis: interprocedural affine bounds analysis of every read of the NTv2 byte buffer against "
               "dominating length comparisons; zero-divisor guards; constructor-established invariants needed by the "
               "query code; classification of every unwrap in grid::*; ranking functions; NTv2 record offsets vs the format",
-    decides=["R-GRAVSOFT-ANGULAR: every boundary with |h| <= 360 counts as an angle",
+    decides=["R-HEADER-PER-NUMBER: the header-or-value decision of the Gravsoft reader is taken in the loop over the numbers",
+             "R-GRAVSOFT-ANGULAR: every boundary with |h| <= 360 counts as an angle",
              "R-BAND-ORDER: the first two bands of each node are exchanged",
              "R-HEADER-PRECISION: every number gravsoft_grid_reader stores as f64 is parsed as f64 (no detour through f32)",
              "R-NTV2-OFFSET-ACCUMULATES: the record offset handed to the NTv2 sub-grid decoder is built from loop state that accumulates",
@@ -411,7 +415,9 @@ P["C13"] = dict(
     claimed=True,
     technique="static analysis: abstract interpretation of the value graph in a unit domain (deg/rad) and an additive "
               "polarity domain for the false origin; affine extraction of the UTM constants; sign-slice of aspect selection",
-    decides=["R-NO-INPUT-CLAMP/output: no value a plane projection writes is a clamp against constants",
+    decides=["R-SENTINEL-DEFAULT: a single Real parameter tested with is_nan() (as a presence test) has the gamut default NaN",
+             "R-PLAIN-IDENTITY: Op::plain stores lat_k / lon_k as read, without arithmetic",
+             "R-NO-INPUT-CLAMP/output: no value a plane projection writes is a clamp against constants",
              "R-LON0-EVERY-WRITE: every value written by the inverse (forward) function of a projection declaring lon_0 has a longitude (position) that depends on lon_0, special-cased aspects included",
              "R-LIMIT-ON-PLANE: the strip limit of the transverse Mercator inverse is applied to the input with the false easting removed",
              "R-PARALLELS-SYMMETRIC: every branch condition of lcc::new on an arithmetic combination of both standard parallels is symmetric in them, and lat_0 defaults to lat_1 on the strength of |lat_1 - lat_2| < eps",
@@ -445,7 +451,9 @@ P["C19"] = dict(
     claimed=True,
     technique="static analysis: element-wise value-graph comparison of every CoordinateSet impl with the documented "
               "defaults; dominance of dimension guards; sign-carrier rule for the sexagesimal conversions",
-    decides=["R-OPS-ELEMENTWISE: the 40 macro-generated + - * / operators of the tuple types compute element k from elements k of both operands, for all k below the dimension",
+    decides=["R-WIDEN-FIRST: functions of coordinate:: that return f64 (or an f64 tuple) do no arithmetic in f32",
+             "R-ISO-OPERATORS-PLAIN: the dm / dms operators apply the ISO-6709 conversions and nothing else in their loops",
+             "R-OPS-ELEMENTWISE: the 40 macro-generated + - * / operators of the tuple types compute element k from elements k of both operands, for all k below the dimension",
              "R-CTOR-SIBLINGS: geo, gis, raw, arcsec, iso_dm, iso_dms, nan, origin, ones compute their horizontal elements alike for all four tuple types",
              "R-SUBSET-DIM: a container of d-dimensional tuples specialises xyz / set_xyz only for d >= 3 and xyzt / set_xyzt only for d >= 4",
              "R-SIGN-CARRIER (odd form): in signum(x) * g(|x|) the magnitude g uses x through |x| only",
@@ -468,7 +476,9 @@ P["C20"] = dict(
     claimed=True,
     technique="static analysis of bin kp's MIR: per-iteration typestate of the output loop, dominance of emptiness and "
               "length guards, boolean abstract interpretation of the direction logic, error-propagation provenance",
-    decides=["R-KP-ROUNDTRIP/all-tuples: the loop forming the roundtrip residuals is not bounded by the number of successful transformations",
+    decides=["R-KP-CONTEXT: kp builds its operation in a Plain context",
+             "R-KP-EVERY-LINE: the only test that skips an input line is the one for an empty token list",
+             "R-KP-ROUNDTRIP/all-tuples: the loop forming the roundtrip residuals is not bounded by the number of successful transformations",
              "R-KP-SKIP-AFTER-CUT: the line loop tests the token list for emptiness after the comment was cut off (comment-only lines are skipped)",
              "R-KP-ERRORS/lines: the io::Result items of the line iterator reach a `?`; the iterator is not wrapped in map_while / flatten / filter_map",
              "R-KP-DIMENSION/width: every call of transform() receives the running maximum of the input widths",
@@ -532,7 +542,10 @@ P["C14"] = dict(
 P["C16"] = dict(
     claimed=True,
     technique="static analysis: declaration/use agreement of parameter keys between gamuts, constructors and readers",
-    decides=["R-NORMALIZE-KEEPS-SEPARATORS/continuation: a continuation colon is replaced by white space, not by nothing",
+    decides=["R-SEXAGESIMAL-REFUSALS: no NaN result of parse_sexagesimal is decided by the size of a parsed part",
+             "R-TYPED-EXTRACT/demands: every arm with an optional default can return MissingParam",
+             "R-SPLIT-EXHAUSTIVE/whitespace-kind: the tokenizer splits at one kind of white space throughout",
+             "R-NORMALIZE-KEEPS-SEPARATORS/continuation: a continuation colon is replaced by white space, not by nothing",
              "R-SPLIT-EXHAUSTIVE: series and sexagesimal values are taken apart with str::split and loops over the parts are not cut short (zip / take)",
              "R-FLAG-CASEFOLD: every comparison of a parameter value with `true` in op:: and token:: folds the case first",
              "T-SUBSCRIPTS: every subscript-digit replacement of normalize writes the same digit behind an underscore",
@@ -556,7 +569,9 @@ P["C16"] = dict(
 P["C17"] = dict(
     claimed=True,
     technique="static analysis: who-calls and dataflow rules on Plain::op and parse_proj (value graph, control dependence)",
-    decides=["R-PROJ-LINE-SEPARATED: where the lines of a PROJ definition are appended in a loop, white space is appended with them",
+    decides=["R-PROJ-TIDY-VERBATIM: tidy_proj does not parse parameter values as numbers",
+             "R-PROJ-PLUS/line-ends: a lone CR is turned into LF before the text is taken apart",
+             "R-PROJ-LINE-SEPARATED: where the lines of a PROJ definition are appended in a loop, white space is appended with them",
              "R-PROJ-COMMENT: the comment sign is searched as the bare `#`",
              "R-PROJ-PLUS/contexts: the `+` prefix is removed behind a blank and at the start of a line",
              "R-PROJ-GLOBALS-KEPT: the filter that builds the pipeline globals excludes exactly the element `inv`",
@@ -592,7 +607,9 @@ P["C18"] = dict(
     technique="static analysis: ownership/typing argument made explicit: deep field-type walk (no interior "
               "mutability), who-may-write rule for the context tables, resolution-order dominance in Op::op, fresh "
               "handles, grid-cache access set, and compile-fail witnesses with compiling twins",
-    decides=["R-REGISTER-FOUND/line-ends-first, closing-fence: the tag is searched in text with its CR replaced; the end of an item is the bare fence",
+    decides=["R-REGISTRATION-FIRST/only-if-absent: files are read only on the side of the look-up where nothing was registered under the name",
+             "R-FILE-BEFORE-REGISTER: in each search directory the `.resource` file is read before the `.md` register",
+             "R-REGISTER-FOUND/line-ends-first, closing-fence: the tag is searched in text with its CR replaced; the end of an item is the bare fence",
              "R-REGISTER-FOUND: once the opening tag of a register item is found, get_resource returns on every path (a missing closing fence at end of file included)",
              "R-OP-NO-REGISTRATION: Context::op of Minimal and Plain registers no resources or operators",
              "R-PATH-ORDER: Plain::default pushes the local ./geodesy onto the search path before the per-user directory",
